@@ -108,3 +108,12 @@ def register(check, not_yet):
           "Shapes enumerated/sampled by VERIF_SEED. The recorded hoisting finding is matched only when every marker ran exactly once "
           "and the value is right (trace is a permutation); any other trace difference is a violation.",
           "CrossHair (z3) symbolic execution of compiler output vs reference evaluator traces", "DESIGN.md section 4 C02", "A:crosshair")
+    check("C18", "other",
+          "Bounded symbolic exploration of the real MultiFunction and core hierarchy functions under CrossHair: operation codes, keys and "
+          "a role permutation of four keywords (which fixes the method map's iteration order) are solver-chosen; after every step a call "
+          "to every dispatch value is compared with a from-scratch resolution (unique candidate preceding all others / default / "
+          "ambiguous / none) and isa?/parents/ancestors/descendants are checked for mutual consistency; dedicated three-candidate "
+          "scenarios cover all 24 iteration orders.",
+          "Bound: histories of length 2 (quick) / 3 (thorough) over 3 dispatch values + :default; keyword hashes fixed by PYTHONHASHSEED=0. "
+          "Data is concrete on each path: the solver's role is choosing operations/orders exhaustively.",
+          "CrossHair (z3) exploration of solver-chosen operation histories on the real classes", "DESIGN.md section 4 C18", "A:crosshair")
